@@ -8,6 +8,8 @@ OpsSI  == (1 :> "slice") @@ (2 :> "iter")
 OpsSS  == (1 :> "slice") @@ (2 :> "slice")
 OpsSRI == (1 :> "slice") @@ (2 :> "read") @@ (3 :> "iter")
 OpsSSR == (1 :> "slice") @@ (2 :> "slice") @@ (3 :> "read")
+OpsFF  == (1 :> "filter") @@ (2 :> "filter")
+OpsFFS == (1 :> "filter") @@ (2 :> "filter") @@ (3 :> "slice")
 OpsRR  == (1 :> "read") @@ (2 :> "read")
 LookAll == [t \in {1, 2, 3} |-> <<"a", "b", "c", "a">>]
 =============================================================================
